@@ -153,11 +153,13 @@ def same_table(a, b, flag=True):
 NAME_ALPHA = "abcxyzT_09æ中-"
 TEXT_ODD = ["", " ", "a b", " lead", "trail ", "x y", "æøå", "\"q\"", "'s'", "**t", ":c", "a:", "***d",
             "-", "nan", "NaN", "1", "1.5", "true", "中文", "\t", "a\tb", "=1+1", "0", "_"]
-UNITS_NUM = ["-", "m", "kg", "mm", "1/s", "m/s^2", "%", "°C"]
+UNITS_NUM = ["-", "m", "kg", "mm", "1/s", "m/s^2", "%", "°C", "\u00b5m", "\u2126", "m\u00b2", "\ufb01t"]   # micro sign, ohm sign, superscript two, fi ligature
 
 
 def gen_name(rng, n=(1, 6)):
-    return "".join(rng.choice(NAME_ALPHA[:10]) for _ in range(rng.randint(*n)))
+    s = "".join(rng.choice(NAME_ALPHA[:10]) for _ in range(rng.randint(*n)))
+    # now and then a character that Unicode normalisation would rewrite
+    return s + ("\u00b2" if (len(s) + ord(s[0])) % 11 == 0 else "")
 
 
 def gen_float(rng):
